@@ -195,7 +195,7 @@ fn run(ctx: &mut Ctx) {
         let cfg = match i % 4 {
             0 => ProgCfg { nframes: 2, nreg: 1, max_len: 8, rf_pct: 100, cf_pct: 0, bad_permille: 0 },
             1 => ProgCfg { nframes: 4, nreg: 2, max_len: 10, rf_pct: 85, cf_pct: 6, bad_permille: 3 },
-            2 => ProgCfg { nframes: 5, nreg: 2, max_len: 14, rf_pct: 70, cf_pct: 10, bad_permille: 5 },
+            2 => ProgCfg { nframes: 11, nreg: 2, max_len: 14, rf_pct: 70, cf_pct: 10, bad_permille: 5 },
             _ => ProgCfg { nframes: 3, nreg: 1, max_len: 12, rf_pct: 95, cf_pct: 3, bad_permille: 0 },
         };
         let text = program_text(&mut rng, &cfg);
@@ -213,7 +213,7 @@ fn run(ctx: &mut Ctx) {
         let cfg = match i % 3 {
             0 => ProgCfg { nframes: 2, nreg: 1, max_len: 8, rf_pct: 100, cf_pct: 0, bad_permille: 0 },
             1 => ProgCfg { nframes: 4, nreg: 2, max_len: 10, rf_pct: 85, cf_pct: 6, bad_permille: 3 },
-            _ => ProgCfg { nframes: 5, nreg: 2, max_len: 14, rf_pct: 70, cf_pct: 10, bad_permille: 5 },
+            _ => ProgCfg { nframes: 11, nreg: 2, max_len: 14, rf_pct: 70, cf_pct: 10, bad_permille: 5 },
         };
         let text = ast_program_text(&mut rng, &cfg);
         ast_case(ctx, &text);
